@@ -28,3 +28,14 @@ add("C15", "complete breadth-first exploration of matcher configurations x token
     "Pattern.consume; ambiguity is detected both as the engine's error and by counting accepting transitions on deep copies. "
     "The space is finite and explored completely (exhaustive: true).",
     "depth >= 3 abstracted to 3; token classes are representatives of kind x distinguished value; predicates are captured with four probe inputs")
+
+add("C07", "Hypothesis-generated codebases, independent recomputation of totals / profiles / folder tree (reference model)",
+    "4800 (thorough 80000) generated codebases are built the way Scanner and ReportReader build them and every redundant view "
+    "(language totals, grand totals, file profiles, folder profiles, tree entries) on the object and in the written JSON is "
+    "compared with values recomputed from the plain data. Sampling of an unbounded space; all depths 0..6 and 1..7 languages occur.",
+    "trusts the 40-line recomputation in vf/props/c07.py; paths are generated conflict-free by construction")
+add("C08", "Hypothesis-generated reports with adversarial Unicode, round trip write -> json.loads -> ReportReader -> write",
+    "4800 (thorough 80000) reports with quotes, backslashes, control, non-ASCII and astral characters in every string field are "
+    "written pretty and compact, parsed with the standard json module, compared with the source data, read back with ReportReader "
+    "field by field and re-written; the re-written text must equal the original up to the timestamp.",
+    "trusts Python's json module as the definition of valid JSON; lone surrogates and repository tags are outside the domain")
